@@ -531,6 +531,8 @@ class Translator:
             return self.assign(key, r, env, rest, K)
         if k == "ReturnStmt":
             inner = [c for c in s.get("inner", []) if isinstance(c, dict)]
+            if K.get("ret") is None:
+                raise Unsupported("return statement inside a slice of %s" % self.fname)
             return K["ret"](self.expr(inner[0], env) if inner else None, env)
         if k == "BreakStmt":
             return K["brk"](env)
@@ -674,6 +676,10 @@ class Translator:
         if inc is not None:
             self.referenced(inc, refs)
         refs = set(self.resolve_alias(x) for x in refs)
+        if self.free_as_params:
+            for x in sorted(refs):
+                if x not in env and x not in decl and x not in self.tables:
+                    self.lookup(env, x)
         skip = getattr(self, "skip", ())
         extra = getattr(self, "extra", [])
         fvars = sorted(x for x in refs if x in env and x not in lvars and env[x] != "0" and x not in skip
@@ -915,15 +921,17 @@ def translate_block(stmts, gname, params, outputs, fname="block", structs=None, 
     for k_, v_ in (init or {}).items():
         env[k_] = v_
     T.params = list(params)
-    fin = lambda e2: T.tuple_of([T.lookup(e2, o) for o in outputs])
-    K = dict(fin=fin, ret=lambda e, e2: (_ for _ in ()).throw(Unsupported("return inside block")),
-             brk=(fin if jumps_end else None), cont=(fin if jumps_end else None))
+    has_loops = any(body_uses_loops(x) for x in stmts)
+    fin0 = lambda e2: T.tuple_of([T.lookup(e2, o) for o in outputs])
+    fin = (lambda e2: "Some %s" % (fin0(e2) if fin0(e2).startswith("(") or re.match(r"^[A-Za-z0-9_']+$", fin0(e2)) else "(%s)" % fin0(e2))) if has_loops else fin0
+    K = dict(fin=fin, ret=None, brk=(fin if jumps_end else None), cont=(fin if jumps_end else None))
+    T.ret_void = True
     text = T.stmts(list(stmts), env, K)
     params = list(T.params)
-    plist = " ".join("(%s : Z)" % n for n in params)
+    plist = ("(fuel : nat) " if has_loops else "") + " ".join("(%s : Z)" % n for n in params)
     out = "".join(a for _, a in T.aux)
     out += "Definition %s %s :=\n%s.\n" % (gname, plist, text)
-    return out, dict(name=gname, params=list(params), outputs=list(outputs), fuel=False)
+    return out, dict(name=gname, params=list(params), outputs=list(outputs), fuel=has_loops)
 
 
 def node_offsets(n):
